@@ -2,6 +2,7 @@ CONSTANTS
   SkSet <- QuickSkeletons
   Alpha = "full"
   InputSet <- QuickInputs
+  Chain = TRUE
 SPECIFICATION Spec
 INVARIANT WellFormed
 INVARIANT NoRuntimeError
